@@ -331,7 +331,7 @@ pub fn block(name: &str, c: &AlphaCtx, out: &mut Vec<Op>) {
         "mempress" => {
             let free = (c.cap - c.len) as u64;
             for n in [0u64, 1, free, free + 1, free + 2, c.len as u64, c.cap as u64] {
-                out.push(Op::arg(OpK::TryReserve, n | 1 << 60));
+                out.push(Op::new(OpK::TryReserve, 1, n));
             }
         }
         // three bulk removals that leave tombstones behind (even keys / old-table elements / main-table elements kept)
